@@ -847,4 +847,63 @@ func c10L1(c *core.Ctx) {
 			}
 		}
 	}
+	// the log or the book typed in at a terminal (a pseudo-terminal as the file; each read returns one line): read to
+	// the end-of-file character it gives the report of the same text in a file; a terminal that goes away in the
+	// middle (its reads fail with EIO from the k-th on) is a file that could not be read completely
+	for _, cmd := range cmds {
+		if cmd.lintFile != "" {
+			continue
+		}
+		for _, which := range []string{"log", "book"} {
+			if (which == "log" && cmd.log < 0) || (which == "book" && cmd.book < 0) {
+				continue
+			}
+			text := log
+			mk := func(slave string) []string {
+				if which == "log" {
+					return append([]string{"--no-color", "-d", "food.yaml", "-l", slave, "--today", "2021/02/01"}, cmd.args...)
+				}
+				return append([]string{"--no-color", "-d", slave, "-l", "log.yaml", "--today", "2021/02/01"}, cmd.args...)
+			}
+			if which == "book" {
+				text = book
+			}
+			sig := strings.Join(cmd.args[:min(2, len(cmd.args))], " ")
+			if cmd.args[0] == "summary" {
+				sig = cmd.args[0]
+			}
+			ref := run.Exec(c.HR, append([]string{"--no-color", "-d", "food.yaml", "-l", "log.yaml", "--today", "2021/02/01"}, cmd.args...), run.ExecOpts{Dir: dir})
+			whole, ok := run.ExecTerminalInput(c.HR, mk, text, run.ExecOpts{Dir: dir}, 0)
+			if !ok || whole.TimedOut {
+				c.Inconclusive("terminal-input", "a pseudo-terminal could not be set up as input file")
+				continue
+			}
+			c.Eval(1)
+			c.Count("l1_terminal_as_input_file_runs", 1)
+			if cmd.args[0] != "stats" && (whole.Exit != ref.Exit || whole.Out != ref.Out) {
+				c.Violation(sig+"|terminal-differs-from-file", fmt.Sprintf("%s with the %s typed in at a terminal: exit %d, %d bytes; from a file: exit %d, %d bytes", joinArgs(cmd.args), which, whole.Exit, len(whole.Out), ref.Exit, len(ref.Out)),
+					caseDoc{Args: mk("/dev/pts/N"), Note: "the " + which + " is the slave side of a pseudo-terminal into which the text and the end-of-file character are typed", Expected: resDoc(ref), Observed: resDoc(whole)})
+			}
+			lines := strings.Count(text, "\n")
+			for _, when := range []int{1, 2, lines / 2, lines} {
+				if when < 1 {
+					continue
+				}
+				res, ok := run.ExecTerminalInput(c.HR, mk, text, run.ExecOpts{Dir: dir, Timeout: 60 * time.Second}, when)
+				if !ok || res.TimedOut {
+					c.Inconclusive("terminal-input", "strace injection on a pseudo-terminal could not be set up")
+					continue
+				}
+				c.Eval(1)
+				c.Count("l1_terminal_going_away_runs", 1)
+				c.Nontrivial("tty-eio", which, fmt.Sprint(when), joinArgs(cmd.args))
+				doc := caseDoc{Args: mk("/dev/pts/N"), Note: fmt.Sprintf("the %s is a pseudo-terminal; read() #%d and later on it return EIO (the terminal went away)", which, when), Observed: resDoc(res)}
+				if res.Crashed() {
+					c.Violation(sig+"|crash-on-read-fault", clip(res.Serr, 300), doc)
+				} else if res.Exit == 0 {
+					c.Violation(sig+"|read-error-swallowed", fmt.Sprintf("%s: the terminal the %s is read from went away at read %d of %d lines, exit 0 with %d bytes of report", joinArgs(cmd.args), which, when, lines, len(res.Out)), doc)
+				}
+			}
+		}
+	}
 }
